@@ -9,7 +9,8 @@ LEVEL = 'exploration'
 RULE = ('flat: every operator with a float operand or result (arithmetic, sqrt, min/max, rounding, abs/neg/copysign, '
         'comparisons, promote/demote, 16 trapping + 8 saturating truncations, 8 int->float conversions, 4 reinterprets) x '
         '(boundary pool x boundary pool, exhaustive) + seeded random bit patterns; expr: random mixed int/float expression '
-        'trees with select/local.tee (moves). Results are compared bit-exactly, NaN by class where the spec is '
+        'trees with select/local.tee (moves), trapping truncations whose result is dropped or never read, comparisons consumed by '
+        'i32.eqz / select / br_if at NaN operands. Results are compared bit-exactly, NaN by class where the spec is '
         'non-deterministic and bit-exactly for bit-preserving instructions, traps by code. Non-trivial = an operand is '
         'NaN/zero/inf/subnormal, a tie for nearest, within range of a truncation boundary, an int->float conversion that '
         'rounds, a demotion out of f32 range, or the evaluation traps; distinct by (operator or body, operands).')
@@ -26,12 +27,43 @@ FEAT = gen.Features(ops=gen.ALL_OPS, types=(I32, I64, F32, F64), max_depth=5)
 def make_expr(ch, params):
     nf = 8 + ch.below(params.get('nfuncs', 24))
     m = gen.expr_module(ch, FEAT, nf)
+    # trapping truncations whose result is thrown away (drop / a local never read), and comparisons consumed by i32.eqz / select /
+    # br_if right away: the trap happens whether or not the value is used, and a negated comparison is not the opposite comparison
+    # when an operand is a NaN
+    from ..wasm import Func
+    for k in range(4):
+        ft = ch.pick((F32, F64))
+        it = ch.pick((I32, I64))
+        op = '%s.trunc_%s_%s' % (it, ft, ch.pick(('s', 'u')))
+        how = ch.below(3)
+        body = [('local.get', 0), (op,)] + ([('drop',)] if how == 0 else [('local.set', 1)] if how == 1 else [('local.get', 0), (op,), ('%s.xor' % it,), ('drop',)])
+        m.funcs.append(Func(m.type_index((ft,), (I32,)), [it] if how == 1 else [], body + [('i32.const', 7)]))
+        m.exports.append((b'deadtrunc%d' % k, 'func', len(m.funcs) - 1))
+    for k in range(4):
+        ft = ch.pick((F32, F64))
+        cmp_ = '%s.%s' % (ft, ch.pick(('lt', 'gt', 'le', 'ge', 'eq', 'ne')))
+        how = ch.below(3)
+        body = [('local.get', 0), ('local.get', 1), (cmp_,)]
+        if how == 0:
+            body += [('i32.eqz',)]
+        elif how == 1:
+            body = [('i32.const', 11), ('i32.const', 22)] + body + [('i32.eqz',), ('select',)]
+        else:
+            body = [('block', I32, [('i32.const', 5)] + body + [('i32.eqz',), ('br_if', 0), ('drop',), ('i32.const', 6)])]
+        m.funcs.append(Func(m.type_index((ft, ft), (I32,)), [], body))
+        m.exports.append((b'ncmp%d' % k, 'func', len(m.funcs) - 1))
     script = [('inst', 0)]
     fex = [(n, i) for n, kd, i in m.exports if kd == 'func']
     for e, (n, fi) in enumerate(fex):
         ps = m.func_type(fi)[0]
         for _ in range(params.get('nargs', 12) if ps else 1):
             script.append(('call', 0, e, gen.gen_args(ch, ps)))
+        if n.startswith(b'deadtrunc') or n.startswith(b'ncmp'):
+            nan, inf, big = ((0x7fc00000, 0x7f800000, 0x5f800000) if ps[0] == F32 else (0x7ff8000000000000, 0x7ff0000000000000, 0x43f0000000000000))
+            for a in (nan, inf, big, nan | 1, 0):
+                script.append(('call', 0, e, [a] if len(ps) == 1 else [a, ch.pick((0, nan, inf))]))
+                if len(ps) == 2:
+                    script.append(('call', 0, e, [ch.pick((0, inf)), a]))
     return m, script, {'nontrivial_fn': f1.hazards_nontrivial, 'ninst': 1, 'independent': True}
 
 
